@@ -180,8 +180,16 @@ def check_multi(acc):
                 f0 = {"family": "several_bases", "cls": cls, "is_async": is_async}
                 acc.case(("multi", cls, is_async, ()), True, len(log), out)
                 bad = None
+                counts = {}
+                for r, n in log:
+                    counts[(r, n)] = counts.get((r, n), 0) + 1
+                # one check = invariants before, preconditions, body, postconditions, invariants after
+                many = sorted(k for k, c in counts.items() if c > (2 if k[0] == "inv" else 1))
                 if out != "ret" or set(order) != set(posts):
                     bad = ("postcondition_set", "all true: outcome {} evaluated {} expected each of {}".format(out, order, posts))
+                elif many:
+                    bad = ("condition_evaluated_more_than_once", "all true: {} evaluated more than once per check (a condition reaching the class over "
+                           "several inheritance paths is still one condition): log {}".format(many, log))
                 else:
                     for x, y in before:
                         if first[x] > first[y]:
@@ -193,6 +201,20 @@ def check_multi(acc):
                 if bad:
                     acc.violation(core.Violation(PROP, bad[0], f0, "{}.f(): {}".format(cls, bad[1]), spec={"multi": cls}, script=MULTI_SRC))
                     continue
+                # the inherited precondition falsy: one group (however many paths it is inherited over), evaluated once
+                # (D3 also inherits f from M, which accepts every input: its effective precondition always holds)
+                out1, log1 = run({"pa": False})
+                acc.case(("multi", cls, is_async, ("pa",)), True, len(log1), out1)
+                n_pa = sum(1 for r, n in log1 if (r, n) == ("pre", "pa"))
+                if cls == "D3":
+                    if out1 != "ret":
+                        acc.violation(core.Violation(PROP, "wrong_error_or_evaluation_continued", dict(f0, falsy="pa"),
+                                                     "D3.f() inherits f also from a base without preconditions, but the call gave {}".format(out1),
+                                                     spec={"multi": cls}, script=MULTI_SRC))
+                elif out1 != "E_pa" or n_pa != 1:
+                    acc.violation(core.Violation(PROP, "condition_evaluated_more_than_once" if out1 == "E_pa" else "wrong_error_or_evaluation_continued",
+                                                 dict(f0, falsy="pa"), "{}.f() with the inherited precondition falsy: outcome {}, the condition was "
+                                                 "evaluated {} time(s): log {}".format(cls, out1, n_pa, log1), spec={"multi": cls}, script=MULTI_SRC))
                 # several falsy postconditions: the error is that of the first one in the evaluation order
                 for k in (1, 2, 3):
                     for falsy in itertools.combinations(posts, k):
@@ -232,7 +254,7 @@ def run(tier, t0):
              "non-trivial = >=2 falsy conditions, or all true with >=2 conditions",
         assumptions=["family F has single inheritance chains; for several bases (diamond in both base orders, two unrelated bases; sync/async) the "
                      "precedence 'inherited before own' and the first-failure error are checked on three hand-written hierarchies x all "
-                     "sets of <=3 falsy postconditions (a diamond may evaluate an inherited condition once per path)",
+                     "sets of <=3 falsy postconditions; every condition at most once per check also when it reaches the class over two paths",
                      "a violated lambda condition may be re-evaluated once (documented)"],
         bounds={"programs": len(sp), "max_stack": 3, "max_levels": 3},
     )
